@@ -10,11 +10,11 @@ VERIF=$(cd "$(dirname "$0")/.." && pwd)
 git -C /repo worktree remove --force $WT >/dev/null 2>&1
 git -C /repo worktree add $WT HEAD >/dev/null 2>&1 || { echo "worktree failed"; exit 2; }
 DEMO=$(ls $OUT/*_test.go | head -1)
-cp $DEMO $WT/$PKG/zz_seed_demo_test.go
+i=0; for f in $OUT/*_test.go; do i=$((i+1)); cp $f $WT/$PKG/zz_seed_demo${i}_test.go; done
 (cd $WT && go test -vet=off -count=1 -run "$RUN" ./$PKG/ >/tmp/confirm_$ID.pass.log 2>&1); PASS_WITHOUT=$?
 git -C $WT apply $OUT/patch.diff || { echo "patch does not apply"; git -C /repo worktree remove --force $WT; exit 2; }
 (cd $WT && go test -vet=off -count=1 -run "$RUN" ./$PKG/ >/tmp/confirm_$ID.fail.log 2>&1); FAIL_WITH=$?
-rm $WT/$PKG/zz_seed_demo_test.go
+rm $WT/$PKG/zz_seed_demo*_test.go
 (cd $WT && go build ./... && go test -vet=off -count=1 -timeout 25m ./... >/tmp/confirm_$ID.suite.log 2>&1); SUITE=$?
 (cd $VERIF && VERIF_REPO=$WT VERIF_TMP=/var/tmp bin/check $PROP --tier $TIER >/tmp/confirm_$ID.check.log 2>&1); CHECK=$?
 VIOL=$(grep -c '^VIOLATION' /tmp/confirm_$ID.check.log)
@@ -22,7 +22,7 @@ echo "seed=$ID prop=$PROP demo_without_patch_exit=$PASS_WITHOUT demo_with_patch_
 grep '^VIOLATION\|^KNOWN' /tmp/confirm_$ID.check.log | head -5
 mkdir -p $VERIF/seeded/$ID
 cp $OUT/patch.diff $VERIF/seeded/$ID/patch.diff
-cp $DEMO $VERIF/seeded/$ID/$(basename $DEMO)
+for f in $OUT/*_test.go; do cp $f $VERIF/seeded/$ID/$(basename $f); done
 [ -f $OUT/NOTES.md ] && cp $OUT/NOTES.md $VERIF/seeded/$ID/NOTES.md
 python3 - "$ID" "$PROP" "$PKG" "$RUN" "$PASS_WITHOUT" "$FAIL_WITH" "$SUITE" "$CHECK" "$VIOL" "$TIER" "$VERIF" <<'PY'
 import json, sys, re, os
